@@ -69,7 +69,7 @@ theorem C06_footer_thrift_roundtrip (F : ThriftForm) (version : Int) (schema rgs
   unfold fileMetaTV at h ⊢
   exact decodeStruct_encodeValF F _ h
 
-example : (fileMetaTV 1 [schemaElementTV ⟨⟨"schema", none, none, 0, none⟩, 1⟩ [], schemaElementTV ⟨⟨"a", some .optional, some 1, 0, none⟩, 0⟩ []]
+example : (fileMetaTV 1 [schemaElementTV ⟨⟨"schema", none, none, 0, none, none⟩, 1⟩ [], schemaElementTV ⟨⟨"a", some .optional, some 1, 0, none, none⟩, 0⟩ []]
     0 [] none [(100, .map [])]).wf = true := by decide +kernel
 
 /-- unknown Thrift fields: fields whose ids are not in the struct's table of parquet.thrift, merged
@@ -190,9 +190,9 @@ required BYTE_ARRAY column), two row groups' worth of features in one: a gap bef
 two pages with mixed run plans / long-form header / CRC, mixed-form footer -/
 
 def exSchema : Schema.Node :=
-  .group ⟨"schema", none, none, 0, none⟩
-    [.group ⟨"g", some .optional, none, 0, none⟩ [.leaf ⟨"xs", some .repeated, some 1, 0, none⟩],
-     .leaf ⟨"k", some .required, some 6, 0, none⟩]
+  .group ⟨"schema", none, none, 0, none, none⟩
+    [.group ⟨"g", some .optional, none, 0, none, none⟩ [.leaf ⟨"xs", some .repeated, some 1, 0, none, none⟩],
+     .leaf ⟨"k", some .required, some 6, 0, none, none⟩]
 
 def exTable : Table :=
   ⟨exSchema, [⟨[exEntries, [⟨0, 0, some [0x61]⟩, ⟨0, 0, some []⟩, ⟨0, 0, some [0x62, 0x63]⟩, ⟨0, 0, some [0x61]⟩]]⟩]⟩
